@@ -61,16 +61,30 @@ theorem disconnectStep_shrinks (g : G) (i : Nat) (g' : G) (h : disconnectStep g 
 theorem disconnectAll_shrinks (g : G) (ifs : List Nat) (g' : G) (h : disconnectAll g ifs = .ok g') : Shrinks g g' :=
   foldlM_shrinks _ disconnectStep_shrinks ifs g g' h
 
+theorem disconnectDeep_shrinks (g : G) (ifs : List Nat) (g' : G) (h : disconnectDeep g ifs = .ok g') : Shrinks g g' :=
+  disconnectAll_shrinks _ _ _ h
+
+theorem removeNsApi_shrinks (g : G) (s : Nat) (g' : G) (h : removeNsApi g s = .ok g') : Shrinks g g' := by
+  unfold removeNsApi at h; split at h
+  · obtain ⟨g1, h1, h2⟩ := bind_ok h
+    exact (disconnectDeep_shrinks _ _ _ h1).trans (removeNs_shrinks _ _ _ h2)
+  · cases h
+
+theorem removeLinkApi_shrinks (g : G) (l : Nat) (g' : G) (h : removeLinkApi g l = .ok g') : Shrinks g g' := by
+  unfold removeLinkApi at h; split at h
+  · exact (Shrinks.minus g [l]).trans (foldlM_shrinks _ (fun g i g' h => removeCp_shrinks g i true g' h) _ _ _ h)
+  · cases h
+
 theorem removeNodeApi_shrinks (g : G) (n : Nat) (g' : G) (h : removeNodeApi g n = .ok g') : Shrinks g g' := by
   unfold removeNodeApi at h; split at h
   · obtain ⟨g1, h1, h2⟩ := bind_ok h
-    exact (disconnectAll_shrinks _ _ _ h1).trans (removeNodeG_shrinks _ _ _ h2)
+    exact (disconnectDeep_shrinks _ _ _ h1).trans (removeNodeG_shrinks _ _ _ h2)
   · cases h
 
 theorem removeFacilityApi_shrinks (g : G) (n : Nat) (g' : G) (h : removeFacilityApi g n = .ok g') : Shrinks g g' := by
   unfold removeFacilityApi at h; split at h
   · obtain ⟨g1, h1, h2⟩ := bind_ok h
-    exact (disconnectAll_shrinks _ _ _ h1).trans (removeNodeG_shrinks _ _ _ h2)
+    exact (disconnectDeep_shrinks _ _ _ h1).trans (removeNodeG_shrinks _ _ _ h2)
   · cases h
 
 theorem removeSwitchApi_shrinks (g : G) (n : Nat) (g' : G) (h : removeSwitchApi g n = .ok g') : Shrinks g g' := by
@@ -81,12 +95,14 @@ theorem removeSwitchApi_shrinks (g : G) (n : Nat) (g' : G) (h : removeSwitchApi 
 theorem removeComponentApi_shrinks (g : G) (c : Nat) (g' : G) (h : removeComponentApi g c = .ok g') : Shrinks g g' := by
   unfold removeComponentApi at h; split at h
   · obtain ⟨g1, h1, h2⟩ := bind_ok h
-    exact (disconnectAll_shrinks _ _ _ h1).trans (removeComp_shrinks _ _ _ h2)
+    exact (disconnectDeep_shrinks _ _ _ h1).trans (removeComp_shrinks _ _ _ h2)
   · cases h
 
 theorem removeChild_shrinks (g : G) (hl : List Nat) (p c : Nat) (r : G × List Nat) (h : removeChild g hl p c = .ok r) : Shrinks g r.1 := by
   unfold removeChild at h; split at h
-  · obtain ⟨a, ha, rfl⟩ := map_ok h; exact removeCp_shrinks _ _ _ _ ha
+  · obtain ⟨g1, h1, h2⟩ := bind_ok h
+    obtain ⟨a, ha, rfl⟩ := map_ok h2
+    exact (disconnectDeep_shrinks _ _ _ h1).trans (removeCp_shrinks _ _ _ _ ha)
   · cases h
 
 theorem unpeer_shrinks (g : G) (ha hb : List Nat) (r : G × List Nat × List Nat) (h : unpeer g ha hb = .ok r) : Shrinks g r.1 := by
@@ -103,6 +119,11 @@ theorem guarded_shrinks (f : G → Nat → Except Err G) (hf : ∀ g a g', f g a
   · exact hf _ _ _ h
   · cases h; exact Shrinks.refl g
 
+theorem pruneIf_shrinks (g : G) (i : Nat) (g' : G)
+    (h : (disconnectDeep g [i]).bind (fun g1 => removeCp g1 i true) = .ok g') : Shrinks g g' := by
+  obtain ⟨g1, h1, h2⟩ := bind_ok h
+  exact (disconnectDeep_shrinks _ _ _ h1).trans (removeCp_shrinks _ _ _ _ h2)
+
 theorem prune_shrinks (g : G) (ns cs ss is : List Nat) (g' : G) (h : prune g ns cs ss is = .ok g') : Shrinks g g' := by
   unfold prune at h
   obtain ⟨g1, h1, h⟩ := bind_ok h
@@ -110,7 +131,7 @@ theorem prune_shrinks (g : G) (ns cs ss is : List Nat) (g' : G) (h : prune g ns 
   obtain ⟨g3, h3, h⟩ := bind_ok h
   exact (foldlM_shrinks _ removeNodeApi_shrinks _ _ _ h1).trans
     ((foldlM_shrinks _ (guarded_shrinks _ removeComponentApi_shrinks) _ _ _ h2).trans
-    ((foldlM_shrinks _ (guarded_shrinks _ removeNs_shrinks) _ _ _ h3).trans
-     (foldlM_shrinks _ (guarded_shrinks _ (fun g i g' h => removeCp_shrinks g i true g' h)) _ _ _ h)))
+    ((foldlM_shrinks _ (guarded_shrinks _ removeNsApi_shrinks) _ _ _ h3).trans
+     (foldlM_shrinks _ (guarded_shrinks _ pruneIf_shrinks) _ _ _ h)))
 
 end FimVerif.Remove
